@@ -365,19 +365,69 @@ let parse_audit (obs : string) =
 (* ---- C06 / C07: the counter array (Counter.cstep) ---- *)
 let ctrs : (string, ctr) Hashtbl.t = Hashtbl.create 7
 
-(* ---- C06: node-level store machine (RefStore.sstep / observe) ---- *)
-let rstore = ref st_init
+(* ---- C06: node-level store machine (OptStore.ostep / oobserve): unique table,
+   incoming counts, cache counts, pessimistic or optimistic deletion ---- *)
+let forest_opt : (string, bool) Hashtbl.t = Hashtbl.create 7
+let rstore = ref (os_init false)
+let rstore_started = ref false
 let rnames : (string, int) Hashtbl.t = Hashtbl.create 31
+let rtoks : (string, int) Hashtbl.t = Hashtbl.create 31
 let rname_next = ref 0
 let rname x = try Hashtbl.find rnames x with Not_found -> raise Unsupported
 let rname_fresh x = incr rname_next; Hashtbl.replace rnames x !rname_next; !rname_next
-let robs () =
-  let (cnts, live) = observe !rstore in
+let rtok x = try Hashtbl.find rtoks x with Not_found -> raise Unsupported
+let rtok_fresh x = incr rname_next; Hashtbl.replace rtoks x !rname_next; !rname_next
+(* the reuse discipline: the implementation's handle for every held node is read from
+   its own observation; a handle may change owner (model identifier) only when the
+   model says the previous owner's handle is free, and one model node has one handle *)
+let handle_owner : (int, z) Hashtbl.t = Hashtbl.create 31
+let owner_handle : (z, int) Hashtbl.t = Hashtbl.create 31
+let impl_handles (impl : string option) : (string * int) list =
+  match impl with
+  | None -> []
+  | Some l ->
+    List.filter_map (fun t ->
+        match Stdlib.String.index_opt t '=', Stdlib.String.index_opt t '@' with
+        | Some i, Some j when j > i ->
+          (try Some (Stdlib.String.sub t 0 i,
+                     int_of_string (Stdlib.String.sub t (j + 1) (Stdlib.String.length t - j - 1)))
+           with _ -> None)
+        | _ -> None) (Stdlib.String.split_on_char ' ' l)
+let robs impl =
+  let ((cnts, toks), live) = oobserve !rstore in
   let byid = List.map (fun (nm, c) -> (int_of_nat nm, int_of_nat c)) cnts in
+  let tokid = List.map (fun (nm, (c, a)) -> (int_of_nat nm, (int_of_nat c, a))) toks in
+  let hs = impl_handles impl in
   let names = List.sort compare (Hashtbl.fold (fun k v acc -> (k, v) :: acc) rnames []) in
-  emit (Printf.sprintf "nobs live=%d%s" (int_of_nat live)
+  let tnames = List.sort compare (Hashtbl.fold (fun k v acc -> (k, v) :: acc) rtoks []) in
+  let handle_of k v =
+    (* model identifier behind name k *)
+    match lookup_name !rstore.os_names (nat_of_int v) with
+    | None -> "?"
+    | Some id when int_of_z id <= 0 -> "0"
+    | Some id ->
+      (match List.assoc_opt k hs with
+       | None -> "?"                      (* no implementation observation: nothing to check *)
+       | Some h ->
+         let ok_owner =
+           match Hashtbl.find_opt handle_owner h with
+           | Some id' when id' <> id -> handle_free !rstore id'
+           | _ -> true in
+         let ok_same =
+           match Hashtbl.find_opt owner_handle id with
+           | Some h' -> h' = h
+           | None -> true in
+         if ok_owner && ok_same then begin
+           Hashtbl.replace handle_owner h id; Hashtbl.replace owner_handle id h;
+           string_of_int h
+         end else "REUSED-WHILE-IN-USE") in
+  emit (Printf.sprintf "nobs live=%d%s%s" (int_of_nat live)
           (Stdlib.String.concat "" (List.map (fun (k, v) ->
-               Printf.sprintf " %s=%d" k (try List.assoc v byid with Not_found -> -1)) names)))
+               Printf.sprintf " %s=%d@%s" k (try List.assoc v byid with Not_found -> -1) (handle_of k v)) names))
+          (Stdlib.String.concat "" (List.map (fun (k, v) ->
+               match List.assoc_opt v tokid with
+               | Some (c, a) -> Printf.sprintf " %s=%d%s" k c (if a then "a" else "z")
+               | None -> Printf.sprintf " %s=?" k) tnames)))
 
 (* ---- C16: documented precondition checks of apply (domain, set/relation) ---- *)
 let forest_of_edge name = Hashtbl.find_opt edge_forest_name name
@@ -432,7 +482,7 @@ let rec run toks =
     Hashtbl.replace dom_ids d !next_dom;
     lstep_do (LCreateDomain (nat_of_int !next_dom))
   | "auditmode" :: m :: _ -> lenient_counts := (m = "lenient")
-  | "init" :: _ -> lstep_do LInitialize; rstore := st_init; Hashtbl.reset rnames
+  | "init" :: _ -> lstep_do LInitialize; rstore := os_init false; rstore_started := false; Hashtbl.reset rnames; Hashtbl.reset rtoks; Hashtbl.reset handle_owner; Hashtbl.reset owner_handle
   | "cleanup" :: "keep" :: _ ->
     (* the user's edges outlive the library: all of them are detached, the
        forests and domains are gone, the registry restarts at the next init *)
@@ -513,6 +563,7 @@ let rec run toks =
               sizes = Hashtbl.find doms d;
               order = Array.init (Array.length (Hashtbl.find doms d)) (fun i -> i + 1) } in
     Hashtbl.replace fors fnm f;
+    Hashtbl.replace forest_opt fnm (not (List.mem "del=pess" toks));
     Hashtbl.remove dead_forests fnm;
     let did = (match Hashtbl.find_opt dom_ids d with Some i -> i | None -> 0) in
     let fid = int_of_nat !ls.ls_next_fid in
@@ -850,22 +901,37 @@ let rec run toks =
             (Stdlib.String.concat "," (List.map (fun v -> string_of_int (int_of_z v)) st'.cdat)))
   | "nnew" :: x :: fn :: lvl :: cs ->
     ignore (get_forest fn);
+    if not !rstore_started then begin
+      rstore := os_init (try Hashtbl.find forest_opt fn with Not_found -> true);
+      rstore_started := true
+    end;
     let resolve c =
       if c.[0] = 't' then z_of_int (- (int_of_string (Stdlib.String.sub c 1 (Stdlib.String.length c - 1))))
-      else match lookup_name !rstore.st_names (nat_of_int (rname c)) with
+      else match lookup_name !rstore.os_names (nat_of_int (rname c)) with
         | Some id -> id
         | None -> raise Unsupported in
     let ids = List.map resolve cs in
-    rstore := sstep !rstore (SNew (nat_of_int (rname_fresh x), nat_of_int (int_of_string lvl), ids));
-    robs ()
+    rstore := ostep !rstore (ONew (nat_of_int (rname_fresh x), nat_of_int (int_of_string lvl), ids));
+    robs (Hashtbl.find_opt impl_obs !line)
   | "ndup" :: y :: x :: _ ->
     let nx = rname x in
-    rstore := sstep !rstore (SDup (nat_of_int (rname_fresh y), nat_of_int nx));
-    robs ()
+    rstore := ostep !rstore (ODup (nat_of_int (rname_fresh y), nat_of_int nx));
+    robs (Hashtbl.find_opt impl_obs !line)
   | "ndrop" :: x :: _ ->
-    rstore := sstep !rstore (SDrop (nat_of_int (rname x)));
+    rstore := ostep !rstore (ODrop (nat_of_int (rname x)));
     Hashtbl.remove rnames x;
-    robs ()
+    robs (Hashtbl.find_opt impl_obs !line)
+  | "ncache" :: t :: x :: _ ->
+    let nx = rname x in
+    (match lookup_name !rstore.os_names (nat_of_int nx) with
+     | Some id when int_of_z id > 0 ->
+       rstore := ostep !rstore (OCache (nat_of_int (rtok_fresh t), nat_of_int nx))
+     | _ -> ());
+    robs (Hashtbl.find_opt impl_obs !line)
+  | "nuncache" :: t :: _ ->
+    rstore := ostep !rstore (OUncache (nat_of_int (rtok t)));
+    Hashtbl.remove rtoks t;
+    robs (Hashtbl.find_opt impl_obs !line)
   | "edgeval" :: fn :: kind :: rest ->
     let f = get_forest fn in
     (match f.lab, kind, rest with
